@@ -72,7 +72,9 @@ def globals_of(p):
     g = {}
     for q in GLOBAL_QUERIES:
         try:
-            v = getattr(p, q)()
+            with warnings.catch_warnings():
+                warnings.simplefilter("ignore")
+                v = getattr(p, q)()
             g[q] = L.typed(int(v) if q == "global_photos_flag" else v)
         except Exception as e:  # noqa: BLE001
             g[q] = {"raises": type(e).__name__}
@@ -151,7 +153,9 @@ def compare_globals(p, exp):
 
     def q(name):
         try:
-            return True, getattr(p, name)()
+            with warnings.catch_warnings():      # the library warns legitimately (e.g. re-set PHOTOS flag); warnings are not judged
+                warnings.simplefilter("ignore")
+                return True, getattr(p, name)()
         except Exception as e:  # noqa: BLE001
             return False, e
 
